@@ -32,13 +32,13 @@ def attr_slot(fmt, name, targets, attr, values, backs=()):
     return Slot(fmt, name, targets, values, attr=attr, backs=backs)
 
 
-BAD_DATES = ["2015052", "201505222", "2015-05-2", "abcdefgh", 20150522, None, "20150522\n", "", " 20150522", "2015052x"]
+BAD_DATES = ["2015052\u00b2", "\u2460\u2461\u2462\u2463\u2464\u2465\u2466\u2467", "2015052", "201505222", "2015-05-2", "abcdefgh", 20150522, None, "20150522\n", "", " 20150522", "2015052x"]
 BAD_COMPOSE_TYPES = ["prod", "Production", "", None, 5, "nightly ", "nightly\n", "release"]
 BAD_IDS = ["no-digits-here", "", None, 12345678, "1234567", "x-2015052.n.0"]
-BAD_LABELS = ["GA", "Beta", "Beta-1", "Beta-1.", "beta-1.0", "Beta-1.0.0", "RC-1.0\n", "Foo-1.0", 5, "Beta 1.0", "Beta-a.b", " RC-1.0", "RC-1.0 "]
+BAD_LABELS = ["RC-1.\u00b2", "Beta-\u2460.0", "Update-1\u2075.3", "GA", "Beta", "Beta-1", "Beta-1.", "beta-1.0", "Beta-1.0.0", "RC-1.0\n", "Foo-1.0", 5, "Beta 1.0", "Beta-a.b", " RC-1.0", "RC-1.0 "]
 BAD_RESPINS = ["0", 1.0, None, "x", [0]]
 BAD_FINAL = ["yes", 1, None, 0]
-BAD_RELEASE_VERSIONS = ["1.", "1..2", "", "1a", "1-2", None, 5, "1\n", "1.2.", "1 ", "1.x"]
+BAD_RELEASE_VERSIONS = ["1.\u00b2", "7.\u0663", "1.", "1..2", "", "1a", "1-2", None, 5, "1\n", "1.2.", "1 ", "1.x"]
 BAD_RELEASE_TYPES = ["GA", "unknown", "", None, "updates_testing", "ga ", 5, "ga\n"]
 BAD_TEXT = [None, 5, ["x"]]
 BAD_BOOL = ["yes", 1, None, 0, "False"]
@@ -67,6 +67,28 @@ def _ci_variants(ci):
 
 def _ci_children(ci):
     return [v for v in _ci_variants(ci) if v.parent is not None]
+
+
+def _ci_deep_with_narrower_parent(ci):
+    """Variants at depth >= 3 whose parent has strictly fewer architectures than the top-level ancestor."""
+    out = []
+    for v in _ci_variants(ci):
+        if v.parent is None or v.parent.parent is None:
+            continue
+        top = v
+        while top.parent is not None:
+            top = top.parent
+        if set(top.arches) - set(v.parent.arches):
+            out.append(v)
+    return out
+
+
+def _arch_of_top_not_parent(v, value):
+    top = v
+    while top.parent is not None:
+        top = top.parent
+    extra = sorted(set(top.arches) - set(v.parent.arches))
+    v.arches = set(v.arches) | set([extra[0]])
 
 
 def _ci_lp_variants(ci):
@@ -171,6 +193,8 @@ SLOTS += [
     attr_slot("composeinfo", "variant.name", _ci_variants, "name", BAD_NAMES, backs=["composeinfo.Variant._validate_name"]),
     attr_slot("composeinfo", "variant.id", _ci_variants, "id", BAD_VARIANT_IDS, backs=["composeinfo.Variant._validate_id"]),
     attr_slot("composeinfo", "variant.arches-empty", _ci_variants, "arches", [set()], backs=["composeinfo.Variant._validate_arches"]),
+    Slot("composeinfo", "variant.deep-child-arch-of-top-not-parent", _ci_deep_with_narrower_parent, ["(an arch the top-level has, the parent lacks)"],
+         apply=_arch_of_top_not_parent, backs=["composeinfo.Variant._validate_parent_arch"]),
     Slot("composeinfo", "variant.child-arch-outside-parent", _ci_children, ["sparc", "mips", "sparc64v"], apply=_foreign_arch,
          backs=["composeinfo.Variant._validate_parent_arch"]),
     Slot("composeinfo", "variant.uid-misaligned", _ci_variants, ["%(uid)sX", "Z-%(id)s", "X%(uid)s"], apply=_misalign_uid,
